@@ -4,7 +4,10 @@ task on the virtual loop, record the order of CBlock evaluations, and emit the p
 lines / canonical trace for the Lean simulator model (lean/EdzedModel/Simulate.lean).
 """
 import asyncio
+import contextlib
 import itertools
+import signal
+import threading
 
 import edzed
 
@@ -12,6 +15,29 @@ from .. import vtime
 from ..enc import enc
 
 _EVAL_LOG = None
+
+
+class Watchdog(Exception):
+    """the real code kept the CPU for too long without giving control back (a busy loop)"""
+
+
+@contextlib.contextmanager
+def watchdog(seconds=20.0):
+    """interrupt a synchronous endless loop of the code under test: after `seconds` of wall time the
+    exception `Watchdog` is raised inside whatever is running (only in the main thread of a process)"""
+    if threading.current_thread() is not threading.main_thread():
+        yield
+        return
+
+    def handler(signum, frame):
+        raise Watchdog(f'no progress for {seconds} s')
+    old = signal.signal(signal.SIGALRM, handler)
+    signal.setitimer(signal.ITIMER_REAL, seconds)
+    try:
+        yield
+    finally:
+        signal.setitimer(signal.ITIMER_REAL, 0)
+        signal.signal(signal.SIGALRM, old)
 _orig_eval_block = edzed.CBlock.eval_block
 
 
@@ -258,7 +284,8 @@ def run(scn):
             pass
 
     try:
-        vtime.run(main)
+        with watchdog():
+            vtime.run(main)
     finally:
         _EVAL_LOG = None
     info.update(lines=lines, trace=trace, idle_points=idle_points, burst_evals=burst_evals,
